@@ -329,7 +329,7 @@ func runCtl(c *rig.Ctx, cs Case) verdict {
 			}
 		}
 	}
-	if lateJudge != nil && lateJudge.class != "c11.ctl.names" {
+	if lateJudge != nil {
 		return *lateJudge
 	}
 	for k, st := range steps {
